@@ -145,6 +145,10 @@ def loop(run, p):
         I.extra_names['datetime'] = dt
 
         def hook(mth, args, kwargs, selfobj, stubs=stubs):
+            if mth.name in ('calc_min_length', 'calc_max_length'):
+                # the verifier's backend measures the same strings, in characters
+                chars = [len(x.decode('UTF-8')) if isinstance(x, bytes) else len(x) for x in stubs['calc_unique_values']]
+                return True, (None if not chars else (min(chars) if mth.name == 'calc_min_length' else max(chars)))
             if mth.name in stubs:
                 return True, stubs[mth.name]
             if mth.name == 'is_null':
